@@ -777,7 +777,7 @@ func (g *Gen) ExtValue(maxLen int) (string, string) {
 		}
 	case 6:
 		n := 200 + g.R.Intn(3800)
-		v, sig = g.chars(alnum+" %;,", n, n), "long<4k"
+		v, sig = g.chars(alnum+" %;,:/@", n, n), "long<4k"
 	case 7:
 		n := 4000 + g.R.Intn(maxLen+1)
 		if n > maxLen {
@@ -786,7 +786,7 @@ func (g *Gen) ExtValue(maxLen int) (string, string) {
 		if n < 1 {
 			n = 1
 		}
-		v, sig = g.chars(alnum+" %;,=", n, n), "long>4k"
+		v, sig = g.chars(alnum+" %;,=:/@", n, n), "long>4k"
 		if n <= 4096 {
 			sig = "long<4k"
 		}
